@@ -16,8 +16,8 @@ from props import c01
 
 PROP = "C15"
 FLAVOURS = ["opt"]
-RULE = ("cases: seeded base systems of 7 kinds (speciation, reaction, minerals, exchange, surface, gas, kinetics) x 11 transformations (units, per-element units incl. mass units and 'as'/gfw, "
-        "water scaling 1e-3..1e3, renumbering, permutation, repeated definition, SOLUTION_SPREAD, self-mix, mix reordering, two different solutions (other temperature) mixed in the other order, "
+RULE = ("cases: seeded base systems of 7 kinds (speciation, reaction, minerals, exchange, surface, gas, kinetics) x 12 transformations (units, per-element units incl. mass units and 'as'/gfw, "
+        "water scaling 1e-3..1e3, renumbering, permutation, repeated definition, SOLUTION_SPREAD without and with a units row (per-column units, 'as', gfw; columns permuted), self-mix, mix reordering, two different solutions (other temperature) mixed in the other order, "
         "the second of them described with g x the water and taken at 1/g of the fraction); distinct & non-trivial = distinct (base kind, transformation) pairs in which both members ran error-free")
 ASSUME = ["both members use KNOBS -convergence_tolerance 1e-12", "dissolved O2 pins the redox state (a floating pe is not an intensive result of the input)",
           "mass units are converted with formula weights computed from the database's element table, the way the manual defines them", "cases sitting on a phase (dis)appearance boundary are inconclusive",
@@ -92,16 +92,16 @@ def render(db, spec, r, tr):
         num = r.choice([2, 7, 42, 300])
     if tr == "water":
         wf = r.choice([1e-3, 0.05, 0.5, 2, 20, 1e3])
-    if tr == "permute":
+    if tr in ("permute", "spreadunits"):
         r.shuffle(order)
     if tr == "units":
         units = r.choice(["mmol/kgw", "umol/kgw"])
     sc = {"mol/kgw": 1.0, "mmol/kgw": 1e3, "umol/kgw": 1e6}[units]
-    lines = []
+    lines, cols = [], []
     for e in order:
         c = conc[e] * sc
         suffix = ""
-        if tr == "perelement" and r.random() < 0.7:
+        if tr in ("perelement", "spreadunits") and r.random() < 0.7:
             how = r.choice(["mmol", "mg", "ug", "as", "gfw"])
             if how == "mmol":
                 c, suffix = conc[e] * 1e3, " mmol/kgw"
@@ -117,12 +117,21 @@ def render(db, spec, r, tr):
                 g = round(r.uniform(10, 200), 3)
                 c, suffix = conc[e] * g * 1e3, " mg/kgw gfw %s" % f(g)
         lines.append(" %s %s%s" % (e, f(c), suffix))
+        cols.append((e, f(c), suffix.strip()))
     o2 = 2e-4 * sc
     body = " temp %s\n pH %s\n units %s\n" % (f(spec["temp"]), f(spec["ph"]), units) + "\n".join(lines) + "\n O(0) %s\n" % f(o2)
     if wf != 1.0:
         body += " -water %s\n" % f(wf)
     t = KNOBS + SEL
-    if tr == "spread":
+    if tr == "spreadunits":
+        # SOLUTION_SPREAD with a units row: every column (also the last one) may carry its own units, 'as' formula or gfw; O(0) sits somewhere in between
+        cc = cols[:]
+        cc.insert(r.randint(0, len(cc) - 1), ("O(0)", f(2e-4), ""))
+        heads = ["Number", "temp", "pH"] + [c_[0] for c_ in cc]
+        urow = ["", "", ""] + [c_[2] for c_ in cc]
+        vals = [str(num), f(spec["temp"]), f(spec["ph"])] + [c_[1] for c_ in cc]
+        t += "SOLUTION_SPREAD\n -units mol/kgw\n" + "\t".join(heads) + "\n" + "\t".join(urow) + "\n" + "\t".join(vals) + "\n"
+    elif tr == "spread":
         heads = ["Number", "temp", "pH"] + order + ["O(0)"]
         vals = [str(num), f(spec["temp"]), f(spec["ph"])] + [f(conc[e]) for e in order] + [f(2e-4)]
         t += "SOLUTION_SPREAD\n -units mol/kgw\n" + "\t".join(heads) + "\n" + "\t".join(vals) + "\n"
@@ -186,7 +195,7 @@ def render(db, spec, r, tr):
     return t + "END\n", wf
 
 
-TRANSFORMS = ["units", "perelement", "water", "renumber", "permute", "repeat", "spread", "selfmix", "mixorder", "mix2order", "mix2split", "mix2split"]
+TRANSFORMS = ["units", "perelement", "water", "renumber", "permute", "repeat", "spread", "selfmix", "mixorder", "mix2order", "mix2split", "mix2split", "spreadunits"]
 
 
 def last_rows(snap):
